@@ -76,6 +76,8 @@ def convert(h, seed):
             put({"op": "reserve", "id": x, "seat": -1, "chips": stack})
         elif a == "sitin":
             put({"op": "join", "id": x})
+        elif a == "leave":
+            put({"op": "leaveout", "ids": [x]})
         elif a == "addon":
             put({"op": "redeem", "id": x, "chips": 1 + (i % 5)})
         elif a == "blind":
